@@ -170,6 +170,8 @@ class Tr:
                     and isinstance(e.args[0].args[0], ast.BinOp) and isinstance(e.args[0].args[0].op, ast.Sub):
                 d = e.args[0].args[0]         # np.argmin(abs(a - b)): a float decision, an oracle of the tie
                 return '(ECall "argmin_abs_diff" [%s; %s])' % (self.expr(d.left), self.expr(d.right))
+            if dotted(f) in ('np.vstack', 'numpy.vstack') and len(e.args) == 1 and not e.keywords:
+                return '(ECall "np.vstack" [%s])' % self.expr(e.args[0])
             if dotted(f) == 'math.log' and len(e.args) == 2 and not e.keywords:
                 return '(ECall "math.log" [%s; %s])' % (self.expr(e.args[0]), self.expr(e.args[1]))    # a float function: an oracle of the tie
             if dotted(f) in ('np.exp', 'np.log', 'np.mean') and len(e.args) == 1 and not e.keywords:
@@ -218,6 +220,9 @@ class Tr:
             if isinstance(f, ast.Name):
                 if f.id == 'len' and len(e.args) == 1:
                     return '(ELen %s)' % self.expr(e.args[0])
+                if f.id == 'int' and len(e.args) == 1 and isinstance(e.args[0], ast.BinOp) and isinstance(e.args[0].op, ast.Div):
+                    # int(a / b): the float quotient truncated — the primitive "int_div" (the tie says: Z.quot on integers)
+                    return '(ECall "int_div" [%s; %s])' % (self.expr(e.args[0].left), self.expr(e.args[0].right))
                 if f.id == 'int' and len(e.args) == 1:
                     return '(EToInt %s)' % self.expr(e.args[0])
                 if f.id == 'float' and len(e.args) == 1:
@@ -329,6 +334,9 @@ class Tr:
             return 'SSkip'                      # the guarded verification hook (LOCALCIDER_VERIF): not part of the library's behaviour
         if isinstance(s, ast.Expr) and isinstance(s.value, ast.Call) and dotted(s.value.func) in LOG_CALLS:
             return 'SSkip'
+        if isinstance(s, ast.Expr) and isinstance(s.value, ast.Call) and isinstance(s.value.func, ast.Attribute) \
+                and isinstance(s.value.func.value, ast.Name) and s.value.func.value.id == 'self' and s.value.func.attr.startswith('__check'):
+            return '(SAssign "$_" %s)' % self.expr(s.value)          # a guard method called for its exception
         if isinstance(s, ast.Assign) and len(s.targets) == 1 and isinstance(s.targets[0], ast.Tuple) and isinstance(s.value, ast.Call):
             # (a, b, ...) = f(...): the call's result is bound once, then unpacked by position
             tmp = self.fresh()
@@ -444,6 +452,10 @@ FUNCS = [
     ('g_Omega_seq', 'localcider/backend/sequence.py', 'Sequence', 'Omega_seq', []),
     ('g_parseSeqFile', 'localcider/backend/seqfileparser.py', 'SequenceFileParser', 'parseSeqFile', []),
     ('g_init_core', 'localcider/backend/sequence.py', 'Sequence', '__init__', [], ('upto', 'self.dmax = dmax')),
+    ('g_linNCPR', 'localcider/backend/sequence.py', 'Sequence', 'linearDistOfNCPR', []),
+    ('g_linFCR', 'localcider/backend/sequence.py', 'Sequence', 'linearDistOfFCR', []),
+    ('g_linSigma', 'localcider/backend/sequence.py', 'Sequence', 'linearDistOfSigma', []),
+    ('g_check_window', 'localcider/backend/sequence.py', 'Sequence', '__check_window_to_length', []),
     ('g_LZW', 'localcider/backend/sequenceComplexity.py', 'SequenceComplexity', 'LZW', []),
     ('g_CWF', 'localcider/backend/sequenceComplexity.py', 'SequenceComplexity', 'CWF', []),
     ('g_LC', 'localcider/backend/sequenceComplexity.py', 'SequenceComplexity', 'LC', []),
